@@ -114,7 +114,7 @@ static void run(void)
 			sim_fault(F_SPURIOUS_RESUME);
 		}
 		uint32_t t0r = real_c.ntrace, t0m = ref_c.ntrace;
-		sim_budget(5000000);
+		sim_budget(400000000);	/* a PT_CALL may poll a child 70001 times, in nested loops */
 		int rs = real_progs[prog](&real_c);
 		int ms = ref_invoke(ref_progs[prog], &ref_c);
 		resumptions++;
